@@ -50,7 +50,10 @@ func (e *Exporter) ExportToFile(docxPath, mdPath string, options *ExportOptions)
 		options = e.opts
 	}
 	if options.ExtractImages && options.ImageOutputDir == "" {
-		options.ImageOutputDir = filepath.Dir(mdPath)
+		// 在副本上设置，不写回导出器默认选项或调用方复用的选项
+		local := *options
+		local.ImageOutputDir = filepath.Dir(mdPath)
+		options = &local
 	}
 
 	// 转换为Markdown
@@ -79,12 +82,13 @@ func (e *Exporter) ExportToString(doc *document.Document, options *ExportOptions
 
 // ExportToBytes 导出Word文档到Markdown字节数组
 func (e *Exporter) ExportToBytes(doc *document.Document, options *ExportOptions) ([]byte, error) {
-	if options != nil {
-		e.opts = options
+	// 本次调用的选项只对本次调用生效，不写回导出器
+	if options == nil {
+		options = e.opts
 	}
 
 	writer := &MarkdownWriter{
-		opts:      e.opts,
+		opts:      options,
 		doc:       doc,
 		imageNum:  0,
 		footnotes: make([]string, 0),
